@@ -77,10 +77,10 @@ def run(ck):
     m = ck.repo.mod(REL)
     cls = m.cls("TranslatorZ3")
     fn = m.func("TranslatorZ3.from_ExprOp")
-    ck.rule("R1", "each operator is translated to the z3 primitive of its reference meaning", floor=26)
-    ck.rule("R2", "every Expr class is translated; slice/compose/cond shapes", floor=12)
-    ck.rule("R3", "memory bytes are concatenated in the configured byte order", floor=2)
-    ck.rule("TC", "the translation memo table is private to the translator object, keyed by the expression itself, and filled by the class's own handler", floor=4)
+    ck.rule("R1", "each operator is translated to the z3 primitive of its reference meaning", floor=18)
+    ck.rule("R2", "every Expr class is translated; slice/compose/cond shapes", floor=7)
+    ck.rule("R3", "memory bytes are concatenated in the configured byte order", floor=1)
+    ck.rule("TC", "the translation memo table is private to the translator object, keyed by the expression itself, and filled by the class's own handler", floor=2)
     from rules._transcache import translator_cache_rules
     translator_cache_rules(ck, "TC")
 
